@@ -500,7 +500,8 @@ def unwrap_payload(t):
     while isinstance(t, tuple) and t:
         if t[0] == 'v':
             t = t[1]
-        elif t[0] == 'f' and t[2] == '0' and isinstance(t[1], tuple) and t[1] and t[1][0] == 'v':
+        elif t[0] == 'f' and t[2] == '0' and isinstance(t[1], tuple) and t[1] and t[1][0] == 'v' and '#' in str(t[1][2]):
+            # `(X as Some#1).0` is the payload; ('v', X, 'Some') (from unwrap()) already *is* the payload, so `.0` on it is a real field
             t = t[1][1]
         else:
             break
